@@ -283,6 +283,121 @@ def run(ctx):
                         if rr[0] != "ok" or rr[1].payload != pl:
                             bad({"kind": "detach-restore"}, "restoring the detached payload does not verify: %r" % (rr[1],), replay)
 
+        # ---- detached content on payloads CORRELATED with the other segments
+        # (the payload text occurs inside the header / signature segment, is empty, is the token itself)
+        def correlated_payloads(hs, ss, text, tok):
+            out = [("empty", b""), ("header-json", text), ("token-text", tok), ("header-segment-text", hs), ("signature-segment-text", ss)]
+            n3 = len(text) // 3
+            for j in range(1, n3 + 1):
+                out.append(("header-prefix-aligned", text[:3 * j]))
+            for i in range(1, n3):
+                out.append(("header-suffix-aligned", text[3 * i:]))
+                for j in (i + 1, i + 2, n3):
+                    if i < j <= n3:
+                        out.append(("header-infix-aligned", text[3 * i:3 * j]))
+            for j in (1, 2, 4, 5, len(text) - 1):
+                if 0 < j < len(text):
+                    out.append(("header-prefix-unaligned", text[:j]))
+            # every short slice of the header / signature segment text that is a canonical encoding
+            for name, seg in (("header", hs), ("signature", ss)):
+                for ln in (2, 3, 4, 6, 8):
+                    for i in range(0, max(0, len(seg) - ln + 1)):
+                        sl = seg[i:i + ln]
+                        try:
+                            raw = b64u_dec(sl)
+                        except Exception:
+                            continue
+                        if b64u(raw) == sl:
+                            out.append(("%s-slice" % name, raw))
+            seen, uniq = set(), []
+            for k_, v_ in out:
+                if v_ not in seen:
+                    seen.add(v_)
+                    uniq.append((k_, v_))
+            return uniq
+
+        det_budget = ctx.scale(260, 4000)
+        for alg, kn in (("HS256", "oct32"), ("HS512", "oct64"), ("ES256", "p256"), ("RS256", "rsa"), ("EdDSA", "ed25519")):
+            k = K[kn]
+            pub = J.pubkey_of(k)
+            for h in ({"alg": alg}, {"alg": alg, "typ": "JWT"}, {"alg": alg, "kid": kn, "cty": "a/b"}):
+                text = json.dumps(h, separators=(",", ":")).encode()
+                t0 = jws.serialize_compact(dict(h), b"seed", k, [alg]).encode()
+                hs0, _, ss0 = t0.split(b".")
+                cands = correlated_payloads(hs0, ss0, text, t0)
+                if len(cands) > det_budget // 15:
+                    keep = [c for c in cands if not c[0].endswith("-slice")]
+                    rest = [c for c in cands if c[0].endswith("-slice")]
+                    cands = keep + rng.sample(rest, max(0, min(len(rest), det_budget // 15 - len(keep))))
+                for kind, pl in cands:
+                    rec.take()
+                    tok = jws.serialize_compact(dict(h), pl, k, [alg]).encode()
+                    rec.take()
+                    hs, ps, ss = tok.split(b".")
+                    collide = "header" if (ps and ps in hs) else ("signature" if (ps and ps in ss) else "none")
+                    ctx.note_case(("detach-correlated", alg, json.dumps(h, sort_keys=True), pl))
+                    note("detach-correlated:%s:collides-with-%s" % (kind.split("-")[0], collide))
+                    rp = {"fn": "detach_content", "alg": alg, "key": kn, "header": h, "payload_hex": pl.hex(), "token": tok.decode(), "kind": kind}
+                    d = call(jws.detach_content, tok.decode())
+                    want = hs.decode() + ".." + ss.decode()
+                    if d[0] != "ok" or d[1].split(".") != [hs.decode(), "", ss.decode()] or d[1] != want:
+                        bad({"kind": "detach", "ser": "compact"}, "detach_content(%r...) = %r, expected header..signature %r (payload kind %s, its encoding occurs in the %s segment)" % (
+                            tok.decode()[:50], d[1], want, kind, collide), rp)
+                    add("JDetachCompact %s %s" % (c_hex(tok), J.c_res(d, lambda x: c_hex(x.encode()))),
+                        {"fn": "detach_compact", "what": "detach-correlated", "force": True, **rp})
+                    if d[0] == "ok":
+                        parts = d[1].split(".")
+                        if len(parts) == 3:
+                            restored = parts[0] + "." + b64u(pl).decode() + "." + parts[2]
+                            rr = call(jws.deserialize_compact, restored, pub, [alg])
+                            rec.take()
+                            if rr[0] != "ok" or rr[1].payload != pl:
+                                bad({"kind": "detach-restore", "ser": "compact"}, "restoring the detached payload (kind %s) does not verify: %r" % (kind, rr[1]), rp)
+                    # JSON forms: every other member untouched (deep compare), input object not altered
+                    if kind.endswith("-slice") and rng.random() < 0.7:
+                        continue
+                    for form in ("flat", "general"):
+                        m = {"protected": dict(h), "header": {"x5t": hs.decode()[:8]}}
+                        val = jws.serialize_json(m if form == "flat" else [m, {"protected": dict(h, typ="second")}], pl, k, [alg])
+                        rec.take()
+                        before = copy.deepcopy(val)
+                        dj = call(jws.detach_content, val)
+                        expect = {x: v for x, v in before.items() if x != "payload"}
+                        if dj[0] != "ok" or dj[1] != expect or "payload" in dj[1]:
+                            bad({"kind": "detach", "ser": form}, "detach_content(JSON %s) = %r, expected %r" % (form, dj[1], expect), dict(rp, value=before))
+                        if val != before:
+                            bad({"kind": "detach-alters-input", "ser": form}, "detach_content altered its argument: %r" % (val,), dict(rp, value=before))
+                        if dj[0] == "ok" and isinstance(dj[1], dict):
+                            # no aliasing: mutating the result must not reach the input
+                            for sg in (dj[1].get("signatures") or [dj[1]]):
+                                if isinstance(sg.get("header"), dict):
+                                    sg["header"]["mutated"] = 1
+                            if val != before:
+                                bad({"kind": "detach-aliases-input", "ser": form}, "the result of detach_content shares objects with its argument", dict(rp, value=before))
+                            d2 = dict(expect, payload=b64u(pl).decode())
+                            rr = call(jws.deserialize_json, d2, pub, [alg])
+                            rec.take()
+                            if rr[0] != "ok" or rr[1].payload != pl:
+                                bad({"kind": "detach-restore", "ser": form}, "restoring the detached JSON payload does not verify: %r" % (rr[1],), rp)
+        # payload' = b64d of a slice of the signature of a first (deterministic HMAC) token, re-signed
+        for hs_alg, kn in (("HS256", "oct32"), ("HS384", "oct64")):
+            k = K[kn]
+            t0 = jws.serialize_compact({"alg": hs_alg}, b"first", k, [hs_alg])
+            ss0 = t0.split(".")[2]
+            for i in range(0, len(ss0) - 4, 4):
+                for ln in (4, 8, 12):
+                    pl = b64u_dec(ss0[i:i + ln].encode())
+                    tok = jws.serialize_compact({"alg": hs_alg}, pl, k, [hs_alg])
+                    rec.take()
+                    hs, ps, ss = tok.split(".")
+                    ctx.note_case(("detach-sig-slice", hs_alg, pl))
+                    note("detach-correlated:signature-slice-resigned")
+                    d = call(jws.detach_content, tok)
+                    if d[0] != "ok" or d[1] != hs + ".." + ss:
+                        bad({"kind": "detach", "ser": "compact"}, "detach_content(%r) = %r" % (tok, d[1]), {"fn": "detach_content", "token": tok})
+                    add("JDetachCompact %s %s" % (c_hex(tok.encode()), J.c_res(d, lambda x: c_hex(x.encode()))),
+                        {"fn": "detach_compact", "what": "detach-correlated", "force": True, "token": tok})
+
         # ---- forced ECDSA boundary values of (r, s) through ECAlgModel.sign / verify
         for alg, crv, bits in (("ES256", "P-256", 256), ("ES384", "P-384", 384), ("ES512", "P-521", 521), ("ES256K", "secp256k1", 256)):
             inst = jws.JWSRegistry.algorithms[alg]
@@ -315,10 +430,14 @@ def run(ctx):
 
     # stratified selection of the Coq cases
     groups = {}
+    forced = [(t, m) for t, m in cases if m.get("force")]
+    if len(forced) > ctx.scale(250, 5000):
+        forced = rng.sample(forced, ctx.scale(250, 5000))
     for t, m in cases:
-        groups.setdefault((m.get("fn"), str(m.get("what", ""))), []).append((t, m))
+        if not m.get("force"):
+            groups.setdefault((m.get("fn"), str(m.get("what", ""))), []).append((t, m))
     per = max(2, budget // max(1, len(groups)))
-    sel = []
+    sel = list(forced)
     for g in sorted(groups):
         sel += groups[g] if len(groups[g]) <= per else rng.sample(groups[g], per)
     ctx.coverage["rule"] = ("verify(sign(h, p, k), pub(k)) returns exactly p and the header members of h (plus the kid chosen from a key set); "
@@ -346,5 +465,11 @@ def replay(path):
         out = call(r97.serialize_compact, dict(r["header"]), bytes.fromhex(r["payload_hex"]), K[r["key"]], [r["alg"]])
         print(out)
         return 1 if out[0] == "err" else 0
+    if r.get("fn") == "detach_content" and "token" in r:
+        tok = r["token"]
+        hs, ps, ss = tok.split(".")
+        out = call(jws.detach_content, tok)
+        print(out, "expected", hs + ".." + ss)
+        return 0 if out == ("ok", hs + ".." + ss) else 1
     print("see the replay file")
     return 1
